@@ -338,7 +338,17 @@ func c03Ctl(c *Ctx, p *Prog, kt *keyTables, db *dbModel, keyConst func(string) (
 			}
 			ast.Inspect(fd.Body, func(n ast.Node) bool {
 				if fs, ok := n.(*ast.ForStmt); ok && cl == nil {
-					ev := &keyEval{pk: pk, p: p}
+					decls := map[*types.Func]*ast.FuncDecl{}
+					for _, f2 := range pk.Syntax {
+						for _, d2 := range f2.Decls {
+							if fd2, ok := d2.(*ast.FuncDecl); ok {
+								if obj, ok := pk.TypesInfo.Defs[fd2.Name].(*types.Func); ok {
+									decls[obj] = fd2
+								}
+							}
+						}
+					}
+					ev := &keyEval{pk: pk, p: p, decls: decls}
 					cl = ev.matchCtlLoop(fs)
 				}
 				return true
